@@ -330,6 +330,28 @@ class World:
         self._event(op, ["ok"], [len(self.convs)], extra)
         return "ok"
 
+    def reuse(self, i, extra_recs, extra=()):
+        """Converter(list(conv_i.records) + new records): the SAME Record objects go through another strict construction."""
+        I = self.I
+        c0 = self.convs[i - 1]
+        try:
+            objs = list(c0.records) + [mk_record(r) for r in extra_recs]
+        except ValueError:
+            return None
+        op = {"k": "new", "recs": [proj_record(I, r) for r in objs], "delim": I(c0.delimiter), "strict": True}
+        try:
+            c = Converter(objs, delimiter=c0.delimiter)
+        except BaseException as e:  # noqa: BLE001
+            out = enc_exc(e)
+            dups = getattr(e, "duplicates", None)
+            if dups is not None:
+                out.append([[proj_record(I, d.record_1), proj_record(I, d.record_2), I(d.prefix)] for d in dups])
+            self._event(op, out, [])
+            return "raise"
+        self.convs.append(c)
+        self._event(op, ["ok"], [len(self.convs)], extra)
+        return "ok"
+
     def mkrec(self, rec):
         op = {"k": "mkrec", "rec": enc_rec_arg(self.I, rec)}
         try:
